@@ -140,8 +140,15 @@ def run(ctx, res):
     reqs += meta
     plan = [(r, rng.choice(lps)) for r in reqs]
     plan += [(r, lp) for r in ('..', 'x/..', '../foobar/x', '../secret/x', 'lib/../..', '.', 'pkg/..') for lp in lps]
+    # require strings that are not valid UTF-8 (a Lua string is bytes): whatever happens to the stray bytes, nothing outside may be touched
+    raw = [b'\xff/etc/passwd', b'\xff' + os.path.join(outside, 'x').encode(), b'.\xff.\xff/secret/x', b'.\xff./foobar/x', b'x\xff', b'\xff',
+           b'..\xff/foobar/x', b'\xc3/..', b'\x80../secret/x', b'/\xff', b'\xfe\xff/' + os.path.join(sib, 'x').encode(), b'lib/\xffinc',
+           b'.\xc0\xae/secret/x', b'\xe0\x80.\xe0\x80./secret/x']
+    plan += [(rb, lp) for rb in raw for lp in (None, 'lib/?.lua', '?')]
     for r, lp in plan:
-        I.write(main, b'local m = require("' + r.encode() + b'")\n')
+        rbytes = r if isinstance(r, bytes) else r.encode()
+        r = r.decode('utf-8', 'surrogateescape') if isinstance(r, bytes) else r
+        I.write(main, b'local m = require("' + rbytes + b'")\n')
         argv = ['-q', 'build', '--lua', main]
         env_lp = None
         if lp == 'ENV':
@@ -172,7 +179,11 @@ def run(ctx, res):
         key = 'C12:require:%s:%s' % (r, lp)
         if bad:
             res.fail(key, 'require("%s") with load path %r made picotool access %s, outside %s' % (r, eff, bad[0], allowed), {'require': r, 'lua_path': eff})
-        lines.append('reqrej ' + hx(r.encode()))
+        if rbytes != r.encode('utf-8', 'surrogateescape') or b'\xff' in rbytes or not _is_utf8(rbytes):
+            # (the implementation decodes the string before it looks at it: the filter decision is not observable; only the accesses count)
+            res.count('require:non-utf8:' + status.split(' ')[0])
+            continue
+        lines.append('reqrej ' + hx(rbytes))
         expect.append('ok 1' if status == 'err build:rejected' else 'ok 0')
         cases.append({'op': 'reqrej', 'require': r, 'impl': status})
         # candidate expansion: the paths the real `_locate_require_file` probes, in order (it stops at the first file found)
@@ -237,6 +248,14 @@ def run(ctx, res):
                 ok = (e == g)
             if not ok:
                 res.diff(c, e[:200], g[:200])
+
+
+def _is_utf8(b):
+    try:
+        b.decode('utf-8')
+        return True
+    except UnicodeDecodeError:
+        return False
 
 
 def _rejected(r):
